@@ -168,6 +168,48 @@ def eliminate_returns(stmts: List[ast.stmt], on_return) -> List[ast.stmt]:
     return out
 
 
+def thread_returns(stmts: List[ast.stmt], on_return) -> List[ast.stmt]:
+    """eliminate_returns, and also: a `try` without finally whose body / else do not return and whose handlers either always
+    return or never do - the handlers that return are tail positions (nothing of the function runs after them)"""
+    out: List[ast.stmt] = []
+    for i, st in enumerate(stmts):
+        if isinstance(st, ast.Try) and _has_return([st]):
+            if st.finalbody or _has_return(st.body) or _has_return(st.orelse):
+                raise NotInlinable("return inside the protected part of a try")
+            new = clone(st)
+            for h, h0 in zip(new.handlers, st.handlers):
+                if _has_return(h0.body):
+                    if not _always_returns(h0.body):
+                        raise NotInlinable("handler that may or may not return")
+                    h.body = thread_returns(h0.body, on_return) or [ast.copy_location(ast.Pass(), h0)]
+            out.append(new)
+            continue
+        if isinstance(st, ast.If) and (_has_return(st.body) or _has_return(st.orelse)):
+            rest = stmts[i + 1 :]
+            body_ret, else_ret = _always_returns(st.body), _always_returns(st.orelse)
+            new = clone(st)
+            if body_ret and else_ret:
+                new.body = thread_returns(st.body, on_return) or [ast.copy_location(ast.Pass(), st)]
+                new.orelse = thread_returns(st.orelse, on_return)
+            elif body_ret:
+                new.body = thread_returns(st.body, on_return) or [ast.copy_location(ast.Pass(), st)]
+                new.orelse = thread_returns(list(st.orelse) + rest, on_return)
+            elif else_ret:
+                new.orelse = thread_returns(st.orelse, on_return)
+                new.body = thread_returns(list(st.body) + rest, on_return) or [ast.copy_location(ast.Pass(), st)]
+            else:
+                raise NotInlinable("return in a branch that does not end the function")
+            out.append(new)
+            return out
+        if isinstance(st, ast.Return):
+            out.extend(on_return(st))
+            return out
+        if _has_return([st]):
+            raise NotInlinable("return inside a loop / with / match")
+        out.append(st)
+    return out
+
+
 def _returns_to_breaks(stmts: List[ast.stmt], on_return) -> List[ast.stmt]:
     """inside the body of a tail-position loop: every `return X` becomes on_return(X) + `break`.  A return inside a nested
     loop would need a second jump: NotInlinable."""
@@ -328,7 +370,89 @@ class Inliner:
         return None, None
 
     # ---------------------------------------------------------------- inline
+    # ------------------------------------------------- expression predicates
+    def _header_exprs(self, st):
+        """the expressions the statement itself evaluates (not those of the statements nested in it)"""
+        if isinstance(st, (ast.If, ast.While)):
+            return [st.test]
+        if isinstance(st, (ast.For, ast.AsyncFor)):
+            return [st.iter]
+        if isinstance(st, (ast.With, ast.AsyncWith)):
+            return [i.context_expr for i in st.items]
+        if isinstance(st, (ast.Try, ast.FunctionDef, ast.AsyncFunctionDef, ast.ClassDef)) or (hasattr(ast, "Match") and isinstance(st, ast.Match)):
+            return []
+        return [c for c in ast.iter_child_nodes(st) if isinstance(c, ast.expr)]
+
+    def predicates(self, f, st: ast.stmt, stack):
+        """a call, anywhere in the statement's own expressions, of a new helper that is one `return <expression>` over
+        arguments that are plain names / attribute chains / constants: the expression is written in its place"""
+
+        def simple(e):
+            while isinstance(e, ast.Attribute):
+                e = e.value
+            return isinstance(e, (ast.Name, ast.Constant))
+
+        for _round in range(4):
+            changed = False
+            for root in self._header_exprs(st):
+                todo = [root]
+                while todo:
+                    x = todo.pop()
+                    if isinstance(x, (ast.Lambda, ast.ListComp, ast.SetComp, ast.DictComp, ast.GeneratorExp)):
+                        continue
+                    todo.extend(c for c in ast.iter_child_nodes(x) if isinstance(c, ast.expr) or isinstance(c, ast.keyword))
+                    if not isinstance(x, ast.Call):
+                        continue
+                    g, receiver = self.resolve(f, x)
+                    if g is None or g.key in stack or g.key.split("#")[0] in self.known or g.key in self.known:
+                        continue
+                    gn = g.node
+                    if isinstance(gn, ast.AsyncFunctionDef) or any(d not in ("staticmethod",) for d in g.decorators):
+                        continue
+                    body = list(gn.body)
+                    if body and isinstance(body[0], ast.Expr) and isinstance(body[0].value, ast.Constant) and isinstance(body[0].value.value, str):
+                        body = body[1:]
+                    if len(body) != 1 or not isinstance(body[0], ast.Return) or body[0].value is None:
+                        continue
+                    e = body[0].value
+                    if any(isinstance(y, (ast.Yield, ast.YieldFrom, ast.Await, ast.NamedExpr, ast.Lambda, ast.ListComp, ast.SetComp, ast.DictComp)) for y in ast.walk(e)):
+                        continue
+                    a = gn.args
+                    if a.vararg or a.kwarg or a.kwonlyargs or a.defaults or x.keywords or any(isinstance(v, ast.Starred) for v in x.args):
+                        continue
+                    params = [p.arg for p in a.posonlyargs + a.args]
+                    binding = {}
+                    if g.cls is not None and "staticmethod" not in g.decorators:
+                        if receiver is None or not params:
+                            continue
+                        binding[params[0]] = receiver
+                        params = params[1:]
+                    if len(params) != len(x.args) or not all(simple(v) for v in x.args):
+                        continue
+                    binding.update(zip(params, x.args))
+                    # a generator expression inside the helper binds its own names: they must not collide with an argument
+                    bound_inside = {y.id for y in ast.walk(e) if isinstance(y, ast.Name) and isinstance(y.ctx, ast.Store)}
+                    arg_names = {y.id for v in binding.values() for y in ast.walk(v) if isinstance(y, ast.Name)}
+                    if bound_inside & (arg_names | set(binding)):
+                        continue
+                    new = clone(e)
+                    holder = ast.Expr(value=new)
+                    for y in list(ast.walk(holder)):
+                        if isinstance(y, ast.Name) and isinstance(y.ctx, ast.Load) and y.id in binding:
+                            _replace(holder, y, clone(binding[y.id]))
+                    new = holder.value
+                    ast.copy_location(new, x)
+                    if _replace(st, x, new):
+                        self.inlined.append(f"{g.key} into {f.key}")
+                        changed = True
+                    break
+                if changed:
+                    break
+            if not changed:
+                return
+
     def expand(self, f, caller_node, st: ast.stmt, stack, depth) -> Optional[List[ast.stmt]]:
+        self.predicates(f, st, stack)
         hit = _first_evaluated_call(st)
         if hit is None:
             return None
@@ -466,7 +590,23 @@ class Inliner:
         whole_value = isinstance(st, ast.Return) and st.value is expr
         discarded = isinstance(st, ast.Expr) and st.value is expr
         single_tail = bool(body) and isinstance(body[-1], ast.Return) and not _has_return(body[:-1])
-        if whole_value:
+        test_of_if = isinstance(st, ast.If) and (st.test is expr or (isinstance(st.test, ast.UnaryOp) and isinstance(st.test.op, ast.Not) and st.test.operand is expr))
+        rets_g = [r for s_ in body for r in _stmt_nodes(s_) if isinstance(r, ast.Return)]
+        if test_of_if and not isinstance(expr, ast.YieldFrom) and rets_g and all(isinstance(r.value, ast.Constant) and isinstance(r.value.value, bool) for r in rets_g) and len({r.value.value for r in rets_g}) == len(rets_g) and isinstance(body[-1], (ast.Return, ast.If)) and _always_returns(body):
+            # `if [not] helper(..): A else: B` where the helper answers with the constants True / False, each from one place:
+            # the branch the answer selects is written where the answer is given (a predicate built around try / except)
+            negate = st.test is not expr
+            br_t = self.block(f, caller_node, list(st.body), stack, depth)
+            br_f = self.block(f, caller_node, list(st.orelse), stack, depth)
+
+            def on_ret(r):
+                truth = bool(r.value.value) != negate
+                return list(br_t if truth else br_f)
+
+            out = pro + thread_returns(body, on_ret)
+            if not out:
+                out = [ast.copy_location(ast.Pass(), st)]
+        elif whole_value:
             new_body = body  # `return helper(...)`: the helper's returns are the caller's
             out = pro + new_body
             if not _always_returns(new_body):
@@ -690,8 +830,40 @@ def inline_tree(repo0, module) -> (ast.Module, List[str]):
         if refs == 0 and other == 0:
             _remove_def(tree, g.node.lineno, name)
             inl.inlined.append(f"(definition of {key} dropped: no call left)")
+    n_cond = _desugar_conditional_statements(tree)
+    if n_cond:
+        inl.inlined.append(f"({n_cond} statement(s) `return/x = A if C else B` of {module.rel} written as if / else)")
     ast.fix_missing_locations(tree)
     return tree, inl.inlined
+
+
+def _desugar_conditional_statements(tree) -> int:
+    """`return A if C else B` -> `if C: return A` / `else: return B`; the same for an assignment to one plain target.
+    Same program; the statement graph then has the two outcomes as paths (a conditional expression is one node)."""
+    n = 0
+    for parent_ in list(ast.walk(tree)):
+        if not isinstance(parent_, (ast.FunctionDef, ast.AsyncFunctionDef)) and not (isinstance(parent_, ast.stmt) or isinstance(parent_, ast.ExceptHandler)):
+            continue
+        for fld in ("body", "orelse", "finalbody"):
+            lst = getattr(parent_, fld, None)
+            if not (isinstance(lst, list) and lst and isinstance(lst[0], ast.stmt)):
+                continue
+            for i, st in enumerate(lst):
+                new = None
+                if isinstance(st, ast.Return) and isinstance(st.value, ast.IfExp):
+                    e = st.value
+                    new = ast.If(test=e.test, body=[ast.Return(value=e.body)], orelse=[ast.Return(value=e.orelse)])
+                elif isinstance(st, ast.Assign) and isinstance(st.value, ast.IfExp) and len(st.targets) == 1 and isinstance(st.targets[0], ast.Name):
+                    e = st.value
+                    new = ast.If(test=e.test, body=[ast.Assign(targets=[clone(st.targets[0])], value=e.body)], orelse=[ast.Assign(targets=[clone(st.targets[0])], value=e.orelse)])
+                if new is not None:
+                    for x in ast.walk(new):
+                        if not hasattr(x, "lineno") and isinstance(x, (ast.stmt, ast.expr)):
+                            ast.copy_location(x, st)
+                    ast.copy_location(new, st)
+                    lst[i] = new
+                    n += 1
+    return n
 
 
 def _remove_def(tree, lineno, name):
